@@ -166,6 +166,15 @@ fn main() {
             }
         }
     }
+    // 1a'. every unary operator on every small value, held as a machine word and held in big representation
+    for v in -40i64..=40 {
+        let a = BigInt::from(v);
+        for op in UN_OPS {
+            for h in [0u64, 1, 2] {
+                cases.push(Case { kind: "un", op: op.to_string(), a: a.clone(), b: BigInt::from(0), src_a: produce(&a, h), src_b: String::new() });
+            }
+        }
+    }
     // 1b. `^` with the cheap bases and every special exponent (incl. 2^31, 2^32 and beyond), both signs
     for (i, e) in specials.iter().enumerate() {
         for (j, base) in [0i64, 1, -1].iter().enumerate() {
